@@ -65,6 +65,7 @@ func (c *fakeConn) Begin() (driver.Tx, error) {
 	return c.BeginTx(context.Background(), driver.TxOptions{})
 }
 func (c *fakeConn) BeginTx(ctx context.Context, opts driver.TxOptions) (driver.Tx, error) {
+	c.s.pausePoint()
 	storeMu.Lock()
 	defer storeMu.Unlock()
 	st, err := c.s.Begin(ctxTag(ctx))
@@ -75,6 +76,7 @@ func (c *fakeConn) BeginTx(ctx context.Context, opts driver.TxOptions) (driver.T
 	return &fakeTx{c: c, st: st}, nil
 }
 func (c *fakeConn) ExecContext(ctx context.Context, query string, args []driver.NamedValue) (driver.Result, error) {
+	c.s.pausePoint()
 	storeMu.Lock()
 	defer storeMu.Unlock()
 	res, err := c.s.Exec(c.tx, ctxTag(ctx), query, namedToValues(args))
@@ -84,6 +86,7 @@ func (c *fakeConn) ExecContext(ctx context.Context, query string, args []driver.
 	return res, nil
 }
 func (c *fakeConn) QueryContext(ctx context.Context, query string, args []driver.NamedValue) (driver.Rows, error) {
+	c.s.pausePoint()
 	storeMu.Lock()
 	defer storeMu.Unlock()
 	set, err := c.s.Query(c.tx, ctxTag(ctx), query, namedToValues(args))
@@ -99,6 +102,7 @@ type fakeTx struct {
 }
 
 func (t *fakeTx) Commit() error {
+	t.c.s.pausePoint()
 	storeMu.Lock()
 	defer storeMu.Unlock()
 	t.c.tx = nil
